@@ -196,6 +196,8 @@ func matrixShape(name string) *pipeline.Matrix {
 		// no dimensions at all; one adjustment with an empty `with` that only says skip (true / false / a reason): the empty
 		// permutation is skipped or not - the matrix is content
 		return &pipeline.Matrix{Adjustments: pipeline.MatrixAdjustments{{With: pipeline.MatrixAdjustmentWith{}, Skip: map[string]any{"skiponly_t": true, "skiponly_f": false, "skiponly_s": "flaky"}[name]}}}
+	case "skiponly_t_es":
+		return &pipeline.Matrix{Setup: pipeline.MatrixSetup{}, Adjustments: pipeline.MatrixAdjustments{{With: pipeline.MatrixAdjustmentWith{}, Skip: true}}} // (what `setup: {}` next to the adjustment parses to)
 	case "setup_os_eadj":
 		return &pipeline.Matrix{Setup: pipeline.MatrixSetup{"os": {"linux"}}, Adjustments: pipeline.MatrixAdjustments{}} // (what `adjustments: []` parses to)
 	case "setup_os_erem":
@@ -593,6 +595,21 @@ func payloadHashes(s map[string]any, R int, rng *mrand.Rand) (signH []string, ve
 				panic(fmt.Sprintf("driver: expected one logged payload, got %d", len(lg4.payloads)))
 			}
 			signH = append(signH, sha(lg4.payloads[0]))
+		}
+		if r == 3 {
+			// the same step signed as a member of a step LIST, two groups down (next to steps that are not signed): what is
+			// signed for it - under the same pipeline env, with the same options - is what is signed for it alone
+			st5 := buildStep(s["c"].(map[string]any), rng)
+			cs5 := st5.CommandStep
+			tree := pipeline.Steps{&pipeline.WaitStep{Contents: map[string]any{}}, &pipeline.GroupStep{Steps: pipeline.Steps{&pipeline.GroupStep{Steps: pipeline.Steps{&pipeline.WaitStep{Contents: map[string]any{}}, &cs5}}}}}
+			lg5 := &payloadLogger{}
+			if err := signature.SignSteps(ctx, tree, kp.sign, st5.RepositoryURL, signature.WithEnv(envOf(s["penv"], rng)), signature.WithLogger(lg5), signature.WithDebugSigning(true)); err != nil {
+				panic("SignSteps of the step inside two groups: " + err.Error())
+			}
+			if len(lg5.payloads) != 1 {
+				panic(fmt.Sprintf("signing the step inside two groups logged %d payloads under debug signing, not one", len(lg5.payloads)))
+			}
+			signH = append(signH, sha(lg5.payloads[0]))
 		}
 		if r == 0 {
 			st2 := buildStep(s["c"].(map[string]any), rng)
